@@ -9,6 +9,7 @@ import (
 	"strings"
 	"unicode"
 	"unicode/utf16"
+	"unicode/utf8"
 )
 
 const (
@@ -153,7 +154,7 @@ func (lineParser *LineParser) parseMarkup() (*ParseResult, error) {
 				Name:           characterAttribute,
 				Position:       0,
 				SourcePosition: 0,
-				Length:         match[1],
+				Length:         utf8.RuneCountInString(lineParser.input[:match[1]]),
 				Properties: map[string]Value{
 					characterAttributeNameProperty: nameValue,
 				},
